@@ -8,7 +8,11 @@ def mc_threads(cfg, timeout=1500):
     return tlc_mc("MC_Threads", cfg, timeout=timeout, workers=10)
 
 
-def gen_schedules(name, readers, writers, commits, reads, grows, maxpre, atomic=True, maxpage=9):
+KEY_POINTS = {"tx:locked", "tx:meta_read", "tx:reg_done", "h:read", "h:tx_done", "commit:spilled", "commit:data_written",
+              "commit:meta_written", "resize:allocated", "in:M.write"}
+
+
+def gen_schedules(name, readers, writers, commits, reads, grows, maxpre, atomic=True, maxpage=9, preempt_at=()):
     d = os.path.join(scratch(), "inst")
     os.makedirs(d, exist_ok=True)
     mod = os.path.join(d, name + ".tla")
@@ -17,9 +21,9 @@ def gen_schedules(name, readers, writers, commits, reads, grows, maxpre, atomic=
         f.write("---- MODULE %s ----\nEXTENDS Gen_Threads\nc_Commits == [t \\in Writers |-> %d]\n====\n" % (name, commits))
     with open(cfg, "w") as f:
         f.write("SPECIFICATION GSpec\nCHECK_DEADLOCK FALSE\nCONSTANTS\n  Readers = %s\n  Writers = %s\n  Commits <- c_Commits\n"
-                "  Reads = %d\n  Grows = %s\n  RegisterAtomically = %s\n  MaxPage = %d\n  MaxPre = %d\n" %
+                "  Reads = %d\n  Grows = %s\n  RegisterAtomically = %s\n  MaxPage = %d\n  MaxPre = %d\n  PreemptAt = %s\n" %
                 (tla_value(set(readers)), tla_value(set(writers)), reads, tla_value(set(grows)),
-                 "TRUE" if atomic else "FALSE", maxpage, maxpre))
+                 "TRUE" if atomic else "FALSE", maxpage, maxpre, tla_value(set(preempt_at))))
     beh, s, t = tlc_gen(mod, cfg, workers=8)
     if not beh:
         raise ToolError("Gen_Threads produced no schedule")
@@ -66,6 +70,7 @@ def run_schedules(verdict, prop, beh, nreaders, nwriters, commits, reads, tag, r
     runs = 0
     bad = 0
     sample = None
+    trace_states = [0]
     pending = parts
     first = True
     while pending:
@@ -73,7 +78,8 @@ def run_schedules(verdict, prop, beh, nreaders, nwriters, commits, reads, tag, r
         for i, (fn, base, skip) in enumerate(pending):
             out = fn + ".out"
             cmd = [JVH, "sched-run", "--readers", str(nreaders), "--writers", str(nwriters), "--commits", str(commits),
-                   "--reads", str(reads), "--out", out, "--skip", str(skip), "--num-pages", "4"] + [str(x) for x in extra]
+                   "--reads", str(reads), "--out", out, "--skip", str(skip),
+                   "--trace-out", out + ".trace"] + [str(x) for x in extra]
             if n:
                 cmd += ["--schedules", fn]
             if random and first:
@@ -118,7 +124,31 @@ def run_schedules(verdict, prop, beh, nreaders, nwriters, commits, reads, tag, r
                     pending.append((fn, base, idx + 1))
                 if not got_summary:
                     runs += 1
-            for x in (out, out + ".progress"):
+            # impl -> spec: the recorded hook order of all runs of this process against the L2 rules
+            tf = out + ".trace"
+            if os.path.exists(tf) and os.path.getsize(tf) > 0:
+                import l1
+                tl = read_lines(tf)
+                try:
+                    json.loads(tl[-1])
+                except Exception:
+                    tl = tl[:-1]
+                    open(tf, "w").write("\n".join(tl) + "\n")
+                reps, stuck, st = l1.vlib_raw_tag("Trace_Threads", "Trace_Threads.cfg", tf, {}, "L2")
+                if stuck is not None:
+                    raise ToolError("CONFORMANCE: Trace_Threads cannot match line %d" % stuck)
+                for r in reps:
+                    start = r["line"]
+                    while start > 1 and '"ev":"reset"' not in tl[start - 1]:
+                        start -= 1
+                    owner = "C04" if r["rule"] in ("release-bound", "reader-snapshot-older-than-a-completed-commit",
+                                                   "deregistered-unknown-reader") else "C09"
+                    verdict.report({"kind": "threads", "class": "trace:" + r["rule"], "owner": owner,
+                                    "readers": nreaders, "writers": nwriters},
+                                   {"rule": r["rule"], "detail": r["detail"],
+                                    "events": [json.loads(x) for x in tl[start - 1:r["line"]]][-60:]})
+                trace_states[0] += st
+            for x in (out, out + ".progress", out + ".trace"):
                 if os.path.exists(x):
                     os.remove(x)
     for fn, _, _ in parts:
